@@ -329,6 +329,15 @@ impl<const N: usize, const T: usize> StaticLut<N, T> {
         }
     }
 
+    /// Verification hook (guard: `--cfg volute_verif`): the iterator of `all_functions`, positioned on an arbitrary table
+    #[cfg(volute_verif)]
+    pub fn verif_iter_from(start: Self) -> StaticLutIterator<N, T> {
+        StaticLutIterator {
+            lut: start,
+            ok: true,
+        }
+    }
+
     /// Compute the number of nodes in the BDD representing these functions
     ///
     /// This function uses the natural variable order (0 to num_vars) to build the BDD.
